@@ -1600,7 +1600,10 @@ static void mt_console (int nlines, int mode, uint64_t seed)
           completions++;
           /* the chunk was enqueued BEFORE the completion was posted: it must be there */
           if (!async_queue_dequeue (lq, chunk, sizeof chunk, &sz))
-            early++;
+            {
+              early++;
+              why = "completion-posted-before-its-chunk-was-enqueued";
+            }
           else
             {
               chunks++;
@@ -1610,7 +1613,7 @@ static void mt_console (int nlines, int mode, uint64_t seed)
                 memcpy (got + glen, chunk, sz - 1), glen += sz - 1;
             }
         }
-      if (glen >= elen)
+      if (glen >= elen || why)
         break;
       if (now_ms () > end)
         {
